@@ -8,18 +8,77 @@ import sys
 logging.disable(logging.CRITICAL)
 
 
+def zeroconf_scan(c12, records):
+    """The third scanner of pyatv.scan(): ZeroconfMulticastScanner reading a zeroconf cache.  The
+    cache is a real zeroconf DNSCache filled with the announced records; no socket is opened."""
+    import asyncio
+    import socket
+    import pyatv
+    import vloop
+    from zeroconf import DNSAddress, DNSCache, DNSPointer, DNSService, DNSText, current_time_millis
+    from zeroconf.const import _CLASS_IN, _TYPE_A, _TYPE_PTR, _TYPE_SRV, _TYPE_TXT
+
+    class ZC:
+        def __init__(self):
+            self.cache = DNSCache()
+
+    class AZC:
+        def __init__(self):
+            self.zeroconf = ZC()
+
+    def fq(labels):
+        return ".".join(labels) + "."
+
+    azc = AZC()
+    now = current_time_millis()
+    recs = []
+    for r in records:
+        t = r["type"]
+        if t == c12.T_PTR:
+            recs.append(DNSPointer(fq(r["name"]), _TYPE_PTR, _CLASS_IN, 4500, fq(r["target"]), now))
+        elif t == c12.T_SRV:
+            recs.append(DNSService(fq(r["name"]), _TYPE_SRV, _CLASS_IN, 4500, r["prio"], r["weight"], r["port"], fq(r["target"]), now))
+        elif t == c12.T_TXT:
+            raw = b"".join(bytes([len(c)]) + c for c in (c12.txt_chunk(ch) for ch in r["txt"]))
+            recs.append(DNSText(fq(r["name"]), _TYPE_TXT, _CLASS_IN, 4500, raw, now))
+        elif t == c12.T_A:
+            recs.append(DNSAddress(fq(r["name"]), _TYPE_A, _CLASS_IN, 4500, socket.inet_aton(c12.ip_str(r["ip"])), now))
+    azc.zeroconf.cache.async_add_records(recs)
+
+    # a service that is not completely in the cache would be asked for on the network: nobody
+    # answers (the request times out and reports "not found")
+    from zeroconf.asyncio import AsyncServiceInfo
+
+    async def nobody_answers(self, zc, timeout, *a, **k):
+        return False
+    saved = AsyncServiceInfo.async_request
+    AsyncServiceInfo.async_request = nobody_answers
+
+    async def go():
+        return await pyatv.scan(asyncio.get_event_loop(), timeout=1, aiozc=azc)
+    try:
+        return c12.observe(vloop.run(go))
+    finally:
+        AsyncServiceInfo.async_request = saved
+
+
 def main():
     import c12
     jobs = json.load(sys.stdin)
     for j in jobs:
         mode = j.get("mode", "m")
-        if mode == "m":
+        if mode == "z":
+            feed = None
+        elif mode == "m":
             feed = [(src, bytes.fromhex(h)) for src, h in j["feed"]]
         else:
             feed = [[bytes.fromhex(h) for h in host] for host in j["feed"]]
         res = {"err": None, "obs": None}
         try:
-            obs, info = c12.run_scan(mode, None, None, feed)
+            if mode == "z":
+                obs = zeroconf_scan(c12, j["records"])
+            else:
+                obs, info = c12.run_scan(mode, None, None, feed)
             res["obs"] = obs
         except BaseException as ex:  # noqa
             res["err"] = "%s: %s" % (type(ex).__name__, ex)
